@@ -100,16 +100,16 @@ def _alarm(signum, frame):
 
 def run_bv(job, rng, out):
     import signal
-    signal.signal(signal.SIGALRM, _alarm)
+    signal.signal(signal.SIGPROF, _alarm)      # CPU time of this process, not wall-clock time
     skipped = 0
     for ci, case in enumerate(bv_cases(rng, job["n"])):
-        signal.alarm(job.get("case_budget_s", 12))
+        signal.setitimer(signal.ITIMER_PROF, job.get("case_budget_s", 12))
         try:
             run_bv_case(case, rng, out)
         except _Slow:
             skipped += 1          # solver time budget exceeded: the case is dropped, not judged
         finally:
-            signal.alarm(0)
+            signal.setitimer(signal.ITIMER_PROF, 0)
     out.stats["skipped_slow"] = skipped
 
 
